@@ -18,6 +18,10 @@ import (
 	"github.com/fatih/structtag"
 )
 
+// maxFieldIndex is the largest index plenc accepts (the largest protobuf field
+// number)
+const maxFieldIndex = 1<<29 - 1
+
 // config defines how tags should be modified
 type config struct {
 	write            bool
@@ -168,6 +172,10 @@ func (c *config) rewrite(node ast.Node) (ast.Node, error) {
 			if c.isExcluded(tags) {
 				tag.Name = "-"
 			} else {
+				if maxPlenc >= maxFieldIndex {
+					recordError(f, fmt.Errorf("no plenc index left for field %s: the largest index in use is %d", name, maxPlenc))
+					continue
+				}
 				maxPlenc++
 				tag.Name = strconv.Itoa(maxPlenc)
 
